@@ -60,11 +60,15 @@ func genC12(x *Ctx) *c12Scen {
 	rid := 0
 	tp.Repeat(2, 4, 500, func(i int) {
 		sp := SvcSpec{ID: i, Root: c12Roots[rootPerm[i]], Dynamic: tp.G(5) != 4}
-		subPerm := tp.Perm(len(c12Subs))
+		subPerm := tp.Perm(2 * len(c12Subs)) // (path, method) pairs
 		nInit := 0
-		tp.Repeat(1, 5, 600, func(k int) {
+		maxR, moreR := 5, 600
+		if i == 0 && tp.Chance(80) {
+			maxR, moreR = 14, 900 // a crowded service: more routes than any preallocated slice or small-table fast path
+		}
+		tp.Repeat(1, maxR, moreR, func(k int) {
 			rid++
-			r := RouteSpec{ID: rid, Method: []string{"GET", "POST"}[tp.G(2)], Path: c12Subs[subPerm[k]]}
+			r := RouteSpec{ID: rid, Method: []string{"GET", "POST"}[subPerm[k]%2], Path: c12Subs[subPerm[k]/2]}
 			r.Cond = tp.Chance(250)
 			if k == 0 || tp.G(3) != 0 { // initial route or pool route (added later by an admin task)
 				if nInit == k {
